@@ -135,3 +135,14 @@ package chancloser
 //@   site call ReceiveClosingSigned: assert c.state == closeFeeNegotiation
 //@   site call proposeCloseSigned: assert c.state == closeFeeNegotiation && arg(1) == c.idealFeeSat && ret(IsInitiator) && called(initFeeBaseline)
 //@   site call WhenSome: assert c.state == closeFeeNegotiation && !ret(IsInitiator) && called(initFeeBaseline)
+//@
+//@ // ---- RBF close, the channel has flushed: the negotiation state and both of its per-party sub-states share ONE record of the close
+//@ // ---- terms (scripts, balances): a delivery script the peer changes later is recorded through the negotiation state and has to be
+//@ // ---- the script the closee signs with, otherwise the two sides sign different transactions
+//@ func (c *ChannelFlushing) ProcessEvent
+//@   props C17
+//@   loop * havoc
+//@   site store LocalCloseStart.CloseChannelTerms: assert value == addr(closeTerms)
+//@   site store RemoteCloseStart.CloseChannelTerms: assert value == addr(closeTerms)
+//@   site store ClosingNegotiation.CloseChannelTerms: assert value == addr(closeTerms)
+//@   site store CloseChannelTerms.ShutdownBalances: assert value == dynptr(event, *ChannelFlushed).ShutdownBalances
